@@ -832,6 +832,8 @@ class Rand2:
 
     def iatom(self, d):
         r = self.r
+        if r.random() < 0.07:
+            return Nilco(Idx(Id("la"), self.small()), self.lit()) if r.random() < 0.6 else Len_(Id(r.choice(["la", "ll", "ma"])))
         k = r.randrange(12)
         if k <= 1: return self.lit()
         if k <= 3: return self.pv()
@@ -1051,7 +1053,7 @@ class Rand2:
     def stmt0(self, d, inloop, infn):
         r = self.r
         deep = d >= self.maxdepth
-        k = r.randrange(43)
+        k = r.randrange(46)
         if k <= 2: return [self.probe()]
         if k <= 5:
             e = self.iexpr()
@@ -1222,6 +1224,27 @@ class Rand2:
             if r.random() < 0.5:
                 out += [{"k": "let", "lhs": [Member(Id(m), "mv")], "rhs": [self.small()]}, P(ACall(Member(Id(m), fn1), self.small()))]
             return out
+        if k == 43:
+            # stores through index paths into containers that are never aliased (la, ll, ma are only ever read by index, len or as a whole)
+            kind = r.randrange(5)
+            if kind == 0: st = {"k": "let", "lhs": [Idx(Id("la"), self.small())], "rhs": [self.iexpr(1)]}
+            elif kind == 1: st = {"k": "let", "lhs": [Idx(Idx(Id("ll"), self.small()), self.small())], "rhs": [self.iexpr(1)]}
+            elif kind == 2: st = {"k": "let", "lhs": [Idx(Id("ma"), S(r.choice(["a", "b", "n"])))], "rhs": [self.iexpr(1)]}
+            elif kind == 3: st = {"k": "let", "lhs": [Idx(Id("la"), self.small()), Id(self.assign_target("int", self.INTS))], "rhs": [self.small(), self.small()]}
+            else: st = {"k": "let", "lhs": [Idx(Idx(Id("ll"), I(r.randrange(3))), I(r.randrange(3)))], "rhs": [self.pv()]}
+            out = [st, P(Id(r.choice(["la", "ll", "ma"])))]
+            return [Try(out, "e", [P(Id("e"))])] if r.random() < 0.6 else out
+        if k == 44:
+            # a channel loop: every value once, in order
+            v = "c%dv" % d
+            self.push(); self.define(v, "int")
+            body = self.block(d + 1, True, infn, scope=False); self.pop()
+            return [ForIn(v, Call("ch", self.llit(1, typed=False)), body)]
+        if k == 45:
+            # a script function called back by Go through a func type without results
+            self.push(); self.define("x", "int")
+            body = [P(Id("x"))] + self.block(d + 1, False, True, scope=False) + [Ret(I(0))]; self.pop()
+            return [Try([E(Call("pe", Fn(["x"], body))), self.probe()], "e", [P(Id("e"))])]
         if k == 39:
             # a Go function that panics: an ordinary error of the call, also when deferred
             if (infn or d == 0) and r.random() < 0.5:
@@ -1269,9 +1292,13 @@ class Rand2:
         for n in self.LISTS:
             if r.random() < 0.6: pre.append(Let(n, L(*[self.lit() for _ in range(r.randrange(4))]))); self.define(n, "list")
         if r.random() < 0.6: pre.append(Let("m1", M((S("a"), self.lit()), (S("b"), self.lit())))); self.define("m1", "map")
+        pre += [Let("la", L(*[self.lit() for _ in range(r.randrange(4))])), Let("ll", L(*[L(*[self.lit() for _ in range(r.randrange(3))]) for _ in range(r.randrange(1, 4))])),
+                Let("ma", M(*[(S(x), self.lit()) for x in r.sample(["a", "b", "c"], r.randrange(3))]))]
         body = self.block(0, False, False, n=r.randrange(4, 9), scope=False)
         names = self.INTS + self.STRS + self.LISTS + self.MAPS
-        return pre + body + [Ret(L(*[Nilco(Id(n), S("undef")) for n in names]))]
+        # la, ll, ma are stored INTO (references in the interpreter, values in the reference semantics): they are logged, never returned, so that
+        # a deferred store cannot reach the result through a shared list
+        return pre + body + [P(Id("la")), P(Id("ll")), P(Id("ma")), Ret(L(*[Nilco(Id(n), S("undef")) for n in names]))]
 
 
 def rand2_programs(seed, n, maxdepth=3):
